@@ -39,8 +39,8 @@ def encode(o, tree_types=TREE_TYPES, root=False):
         yield from (encode(value) for value in o.itermv())
     elif isinstance(o, MultiVector):
         values = o._values.tobytes() if isinstance(o._values, np.ndarray) else o._values.copy()
-        if len(o) != len(o.algebra):
-            # If not full mv, also pass the keys and let ganja figure it out.
+        if tuple(o._keys) != tuple(o.algebra.canon2bin.values()):
+            # If not a full mv in canonical order, also pass the keys and let ganja figure it out.
             yield {'mv': values, 'keys': o._keys}
         else:
             yield {'mv': values}
@@ -153,8 +153,8 @@ class GraphWidget(anywidget.AnyWidget):
             old_subject = old_subjects[j]
             old_vals = old_subject._values
             new_vals = new_subject['mv']
-            if len(old_vals) == len(self.algebra):
-                # If full mv, we can be quick.
+            if tuple(old_subject._keys) == tuple(self.algebra.canon2bin.values()):
+                # If full mv in canonical order, we can be quick.
                 for j, val in enumerate(new_vals):
                     if old_vals[j] != val:
                         old_vals[j] = val
